@@ -213,6 +213,64 @@ def _case(vals, acc):
                  {'spec_repr': repr(spec), 'mask': mask})
 
 
+SHARED_SHAPES = ['siblings', 'uncle', 'three', 'deep-twice', 'shared-leafless']
+
+
+def _shared_case(vals, acc):
+    from oslo_utils import strutils
+    shape, kind, mask = vals
+    c = wrap({'password': 'p', 'note': 'token=abc'}, 'dict' if kind == 'lazy' else kind)
+    name = SHARED_SHAPES[shape]
+    if name == 'siblings':
+        arg = {'a': c, 'b': c}
+    elif name == 'uncle':
+        arg = {'a': c, 'b': {'x': c}}
+    elif name == 'three':
+        arg = {'a': c, 'b': c, 'c': {'d': c}}
+    elif name == 'deep-twice':
+        inner = {'k': c}
+        arg = {'p': {'q': inner}, 'r': inner}
+    else:
+        e = wrap({}, 'dict' if kind == 'lazy' else kind)
+        arg = {'a': e, 'b': e, 'c': c, 'd': c}
+    if kind != 'dict':
+        arg = wrap(arg, kind) if kind != 'lazy' else arg
+    before = snapshot(arg)
+    want = reference(arg, mask, strutils.mask_password)
+    acc.nontrivial(repr((name, kind, mask)))
+    try:
+        got = strutils.mask_dict_password(arg, mask)
+    except Exception as e:
+        acc.fail('raises', {'argument': repr(arg), 'exception': type(e).__name__},
+                 {'shared': [shape, kind, mask]})
+        return
+    diff = compare(got, want, arg)
+    if diff or snapshot(arg) != before:
+        acc.fail('result:shared-submapping', {'shape': name, 'container': kind, 'argument': repr(arg),
+                                              'got': repr(got), 'want': repr(want), 'difference': diff},
+                 {'shared': [shape, kind, mask]})
+
+
+class RowLike:
+    """Looks like a row (keys() and __getitem__) but is not a Mapping."""
+    def keys(self):
+        return ['a', 'password']
+
+    def __getitem__(self, k):
+        return 1
+
+    def __iter__(self):
+        return iter(self.keys())
+
+    def __len__(self):
+        return 2
+
+
+class ItemsOnly:
+    def items(self):
+        return [('password', 'x')]
+
+
 def level1(keys, leaves, maxw, kinds):
     out = []
     for w in range(0, maxw + 1):
@@ -277,8 +335,9 @@ def run(ctx):
     for k in KEYS:
         for form in (k, k.upper()):
             for r in renderings:
-                leaf = r.replace('%s', form)
-                strs.append(('map', CONTAINERS4[len(strs) % 4], (('cmd', ('leaf', leaf)),)))
+                for sec in ('abc', '7'):             # also the shortest possible values
+                    leaf = r.replace('%s', form).replace('abc', sec)
+                    strs.append(('map', CONTAINERS4[len(strs) % 4], (('cmd', ('leaf', leaf)),)))
     groups.append(('secret-strings-all-keys', strs))
     # two string values of one call that differ only in letter case (or not at all)
     variants = ['Password=abc', 'password=abc', 'PASSWORD=abc', 'password=ABC', 'Hello', 'hello',
@@ -292,6 +351,9 @@ def run(ctx):
     groups.append(('case-variant-strings', pairs))
     for name, specs in groups:
         E.run(rep, name, [specs, MASKS], _case)
+    # one sub-mapping *object* reachable along two paths (siblings, uncle and nephew, three
+    # times): a DAG, not a cycle; every occurrence is masked
+    E.run(rep, 'shared-submappings', [list(range(len(SHARED_SHAPES))), CONTAINERS4, MASKS], _shared_case)
     # every sanitize key embedded in a string key, three cases, three positions
     emb = []
     for k in KEYS:
@@ -304,7 +366,11 @@ def run(ctx):
     E.run(rep, 'embedded-keys', [emb, MASKS], _case)
     # non-mapping arguments raise TypeError
     from oslo_utils import strutils
-    for bad in ([], [('password', 'x')], 'password=x', None, 3, {1, 2}, b'x', ('a',)):
+    import email.message
+    msg = email.message.Message()
+    msg['password'] = 'x'
+    for bad in ([], [('password', 'x')], 'password=x', None, 3, {1, 2}, b'x', ('a',), RowLike(), ItemsOnly(),
+                msg, {'password': 'x'}.items(), {'password': 'x'}.keys()):
         rep.count('evaluations')
         rep.nontrivial('nonmapping' + repr(bad))
         try:
@@ -335,6 +401,10 @@ def replay(payload):
     if 'nonmapping' in payload:
         return {'violates': True, 'note': 'see summary'}
 
+    if 'shared' in payload:
+        acc = _Acc()
+        _shared_case(tuple(payload['shared']), acc)
+        return {'violates': bool(acc.fails), 'problems': acc.fails}
     import ast
     spec = ast.literal_eval(payload['spec_repr'])
     arg = fresh(spec)
@@ -350,3 +420,15 @@ def replay(payload):
             'got': repr(got), 'want': repr(want)}
 
 
+class _Acc:
+    def __init__(self):
+        self.fails = []
+
+    def fail(self, cls, summary, payload, sigs=()):
+        self.fails.append({'class': cls, 'summary': summary})
+
+    def count(self, *a):
+        pass
+
+    def nontrivial(self, *a):
+        pass
